@@ -11,6 +11,7 @@ import (
 	"os"
 	"runtime"
 	"runtime/debug"
+	"strconv"
 	"strings"
 	"sync"
 	"time"
@@ -249,14 +250,42 @@ func guard[T any](timeout time.Duration, f func() (T, error)) (res T, err error)
 		v, e := f()
 		ch <- rt{v, e}
 	}()
-	select {
-	case x := <-ch:
-		return x.v, x.e
-	case <-time.After(timeout):
-		var z T
-		mustExit = true
-		return z, errHang
+	// the watchdog measures wall time: on an overloaded machine a healthy operation may be slow, so the wait is extended
+	// while the load average says the cores are oversubscribed (an operation that really hangs is still reported,
+	// later; one that eats memory is stopped by the heap watchdog)
+	timeout = time.Duration(float64(timeout) * timeoutScale())
+	for ext := 0; ; ext++ {
+		select {
+		case x := <-ch:
+			return x.v, x.e
+		case <-time.After(timeout):
+		}
+		if ext >= 8 || !overloaded() {
+			var z T
+			mustExit = true
+			return z, errHang
+		}
 	}
+}
+
+func timeoutScale() float64 {
+	if v, err := strconv.ParseFloat(os.Getenv("VERIF_TIMEOUT_SCALE"), 64); err == nil && v >= 1 {
+		return v
+	}
+	return 1
+}
+
+func overloaded() bool {
+	b, err := os.ReadFile("/proc/loadavg")
+	if err != nil {
+		return false
+	}
+	f := strings.Fields(string(b))
+	if len(f) == 0 {
+		return false
+	}
+	l, err := strconv.ParseFloat(f[0], 64)
+	return err == nil && l > 1.25*float64(runtime.NumCPU())
 }
 
 func bigS(b *big.Int) any {
